@@ -320,7 +320,9 @@ class P:
                 ctl["var"] = self.ident(); self.eat()
                 ctl["from"] = self.expr_until(K("TO")); self.eat(K("TO"))
                 ctl["to"] = self.expr_until(K("BY"), K("WHILE"), K("UNTIL"), S(";"))
-                if self.opt(K("BY")): ctl["by"] = self.expr_until(K("WHILE"), K("UNTIL"), S(";"))
+                # expparse.y: `by_expression ::= /* NULL */ { A = LITERAL_ONE; }` — the parser supplies the default
+                # increment, exppp cannot know whether it was written: `BY 1` and no BY clause are the same tree
+                ctl["by"] = self.expr_until(K("WHILE"), K("UNTIL"), S(";")) if self.opt(K("BY")) else E([("int", 1)])
             if self.opt(K("WHILE")): ctl["while"] = self.expr_until(K("UNTIL"), S(";"))
             if self.opt(K("UNTIL")): ctl["until"] = self.expr_until(S(";"))
             self.eat(S(";"))
